@@ -162,13 +162,14 @@ class FinalFeedback:
         into a single score.
         """
         # If we don't have a message yet, then use the default message
-        if self.message is None:
+        nothing_shown = self.message is None
+        if nothing_shown:
             self.title = self.DEFAULT_NO_FEEDBACK_TITLE
             self.message = self.DEFAULT_NO_FEEDBACK_MESSAGE
         # If we have suppressed correctness, then update that flag
         self.hide_correctness = self.suppressions.get('correct', self.suppressions.get('success', False))
         # As long as we are allowed, change the default message to the "correct" message
-        if (not self.hide_correctness and
+        if (not self.hide_correctness and nothing_shown and
                 self.label == self.DEFAULT_NO_FEEDBACK_LABEL and
                 self.category == Feedback.CATEGORIES.COMPLETE):
             # TODO: Promote to be its own atomic feedback function
